@@ -4,7 +4,7 @@
    FV, FP, devprog, potential rooting depth).  Remaining oracles: the photoperiodic day length (sin/cos/asin)
    and the power / exponential inside root().  Only statements here. *)
 From Coq Require Import ZArith Reals List Bool.
-From Hermes Require Import Num RUtil CropModel CropProofs DevModel DevProofs RootDistModel RootDistProofs SupplyModel SupplyProofs.
+From Hermes Require Import Num RUtil CropModel CropProofs DevModel DevProofs RootDistModel RootDistProofs SupplyModel SupplyProofs Et0Model.
 Import ListNotations.
 
 (* "development never runs backwards", with the factors COMPUTED by the model of the code instead of assumed
@@ -141,6 +141,13 @@ Proof.
                      (fun Hl => fkc_pre_nonneg kcini kk sum tsum (conj Hs Hl) Ht)))).
 Qed.
 
+(* ... which is the domain hypothesis '0 <= FKC' of the C08 theorems on potential evapotranspiration (Et0Proofs.et0_domain): for an Evatra
+   input whose crop coefficient is the one PhytoOut computed from a crop file with non-negative kc entries, it holds *)
+Theorem C09_crop_coefficient_feeds_C08 : forall (x : et0_in (T:=R)) (b : bool) (kcini kp kk sum tsum : R),
+  0 <= sum -> 0 < tsum -> 0 <= kcini -> 0 <= kp -> 0 <= kk ->
+  ti_fkc x = fkc_of b kcini kp kk (relint_of sum tsum) -> 0 <= ti_fkc x.
+Proof. exact (fun x b kcini kp kk sum tsum Hs Ht H1 H2 H3 E => eq_ind_r (fun v => 0 <= v) (fkc_nonneg b kcini kp kk _ (relint_range sum tsum Hs Ht) H1 H2 H3) E). Qed.
+
 (* N supply terms (crop.go:662-699), until round 9 mirrored in the harness and handed to the uptake model as oracle values: the mass
    flow with the transpiration stream is >= 0 in every layer (TP, C1 >= 0, WG > 0), the diffusion coefficient is >= 0, the diffusive
    supply has the sign of (N concentration of the soil solution - 14 mg/l) - towards the root above the threshold, away from it
@@ -183,3 +190,4 @@ Print Assumptions C09_dead_root_n.
 Print Assumptions C09_supply_terms.
 Print Assumptions C09_pool_inputs.
 Print Assumptions C09_crop_coefficient.
+Print Assumptions C09_crop_coefficient_feeds_C08.
